@@ -282,7 +282,8 @@ class Ctx:
 
     @property
     def quick(self):
-        return self.tier == 'quick'
+        # a broken secondary tie escalates the correspondence of this property to its thorough depth
+        return self.tier == 'quick' and not self.escalated
 
     def n(self, quick, thorough):
         return quick if self.quick else thorough
@@ -419,9 +420,10 @@ def run_property(pid, tier, replay_path=None):
         #     A break here is NOT a reason by itself (the deciding tie is the correspondence run): it is recorded and the
         #     module's escalate(ctx) hook deepens the correspondence on the mechanism concerned (DESIGN §11.7).
         ctx.secondary_tie = None
-        if hasattr(mod, 'secondary_tie'):
+        import ties
+        if hasattr(mod, 'secondary_tie') or pid in ties.SPECS:
             try:
-                ctx.secondary_tie = mod.secondary_tie(ctx)      # {'ok': bool, 'detail': str, 'theorems': {...}}
+                ctx.secondary_tie = mod.secondary_tie(ctx) if hasattr(mod, 'secondary_tie') else ties.run(ctx)      # {'ok': bool, 'detail': str, 'theorems': {...}}
             except Timeout:
                 raise
             except Exception as e:
